@@ -145,6 +145,7 @@ func GenMulti(c *Chooser, o GenOpts) *MultiWorld {
 	var cloneText string
 	var cloneAssets, cloneGroups []string
 	nrepos := 1 + c.Int("world.nrepos", o.MaxRepos)
+	sameNames := c.Weighted("world.samenames", 1, 4)
 	// choose distinct roots; a nested root is only meaningful with its parent present or absent - both are fine
 	avail := append([]string(nil), repoRoots...)
 	var all []string
@@ -193,6 +194,10 @@ func GenMulti(c *Chooser, o GenOpts) *MultiWorld {
 			nfiles := 1 + c.Int("world.nfiles", o.MaxFiles)
 			for fi := 0; fi < nfiles; fi++ {
 				name := fmt.Sprintf("%s/.github/workflows/%c%d.yml", root, 'a'+byte(fi), ri)
+				if sameNames {
+					// files of different repositories share their repository-relative names
+					name = fmt.Sprintf("%s/.github/workflows/%c0.yml", root, 'a'+byte(fi))
+				}
 				if o.Corpus && len(cp.Files) > 0 && c.Weighted("world.corpusfile", 1, 3) {
 					cf := cp.Files[c.Int("world.cfile", len(cp.Files))]
 					if !strings.Contains(cf.Text, "uses: ./") || o.Defective {
